@@ -304,33 +304,35 @@ namespace Modify
 
 variable {cfg : Cfg} {c : Char}
 
-theorem validReplace_single (hc : cfg.Plain c) (t : Tree) (k : Nat) (fp tp : List Str)
-    (hgf : GoodNames c (t.name :: fp)) (hgt : GoodNames c (t.name :: tp)) :
-    validReplace cfg (st0 t k) [(pathStr c t.name fp, some (pathStr c t.name tp))] = true := by
+theorem validReplace_single (hc : cfg.Plain c) (t : Tree) (k : Nat) (fs : Str) (fp tp : List Str)
+    (F : Tree) (f : Str) (hfr : FromOK cfg t fs fp F f) (hgt : GoodNames c (t.name :: tp)) :
+    validReplace cfg (st0 t k) [(fs, some (pathStr c t.name tp))] = true := by
   unfold validReplace
   simp only [List.map_cons, List.map_nil, List.all_cons, List.all_nil, Bool.and_true, norm,
-    normFrom_pathStr hc _ _ hgf, normTo_pathStr hc _ _ hgt, st0_tree,
-    fromRootOk_pathStr hc _ _ _ hgf, toRootOk_pathStr hc _ _ _ hgt]
-  simp
+    hfr.norm, normTo_pathStr hc _ _ hgt, st0_tree, toRootOk_pathStr hc _ _ _ hgt]
+  cases hw : cfg.withFullPath with
+  | false => simp
+  | true => simp [fromRootOk, hfr.root hw]
 
 /-- `shift_and_replace_nodes(tree, [from], [to])` where the from-node is not a later sibling of
 the replaced node: the from-node ends up exactly where the replaced node was. -/
 theorem replace_core (hc : cfg.Plain c) (hcp : cfg.copy = false) (hdc : cfg.deleteChildren = false)
     (t : Tree) (k : Nat) (fpar tpar : List Str) (f d : Str) (F D P : Tree) (before after : List Tree)
     (hu : SibUnique t)
-    (hgf : GoodNames c (t.name :: fpar ++ [f])) (hgt : GoodNames c (t.name :: tpar ++ [d]))
-    (hF : getRel (fpar ++ [f]) t = some F) (hP : getRel tpar t = some P)
+    (fs : Str) (hfr : FromOK cfg t fs (fpar ++ [f]) F f) (hgt : GoodNames c (t.name :: tpar ++ [d]))
+    (hP : getRel tpar t = some P)
     (hsplit : P.children = before ++ D :: after) (hDn : D.name = d)
     (h1 : (fpar ++ [f]).isPrefixOf (tpar ++ [d]) = false)
     (h2 : (tpar ++ [d]).isPrefixOf (fpar ++ [f]) = false)
     (hlater : ∀ y ∈ after, y.name = f → fpar ≠ tpar)
     (hfree : ∀ y ∈ P.children, y.name = f → f = d ∨ fpar = tpar) :
     ∃ t' P' X A, replaceNodes cfg (st0 t k)
-        [(pathStr c t.name (fpar ++ [f]), some (pathStr c t.name (tpar ++ [d])))] = .ok (st0 t' k) ∧
+        [(fs, some (pathStr c t.name (tpar ++ [d])))] = .ok (st0 t' k) ∧
       getRel tpar t' = some P' ∧ P'.children = X ++ F :: A ∧
       X.map ent = (before.filter (fun x => !(decide (fpar = tpar) && x.name == f))).map ent ∧
       A.map ent = after.map ent := by
   have hfpne : fpar ++ [f] ≠ [] := by simp
+  have hF := hfr.found
   have htpne : tpar ++ [d] ≠ [] := by simp
   -- the shape of the parent's child list
   have hPu : SibUnique P := hu.sub hP
@@ -479,15 +481,13 @@ theorem replace_core (hc : cfg.Plain c) (hcp : cfg.copy = false) (hdc : cfg.dele
     setKids (reappendKids (A.map Tree.name) (appendKid F P2).children) (appendKid F P2), X, A, ?_,
     getRel_modifyAt_self (f := fun Q => setKids (reappendKids (A.map Tree.name) Q.children) Q) hP3
       (setKids_name _ _), ?_, hX, hA⟩
-  · have hgf' : GoodNames c (t.name :: (fpar ++ [f])) := by simpa using hgf
-    have hgt' : GoodNames c (t.name :: (tpar ++ [d])) := by simpa using hgt
+  · have hgt' : GoodNames c (t.name :: (tpar ++ [d])) := by simpa using hgt
     unfold replaceNodes
-    rw [validReplace_single hc t k _ _ hgf' hgt']
-    simp only [if_true, List.map_cons, List.map_nil, loopReplace, norm, normFrom_pathStr hc _ _ hgf',
+    rw [validReplace_single hc t k fs _ _ F f hfr hgt']
+    simp only [if_true, List.map_cons, List.map_nil, loopReplace, norm, hfr.norm,
       normTo_pathStr hc _ _ hgt']
     unfold stepReplace
-    have hr := resolveFrom_pathStr hc (st0 t k) (fpar ++ [f]) (by simpa using hgf')
-    simp only [st0_tree, hF, Option.map_some] at hr
+    have hr := resolveFrom_of (st0 t k) hfr
     have hne : (fpar ++ [f] == tpar ++ [d]) = false := by
       cases h : (fpar ++ [f] == tpar ++ [d]) with
       | false => rfl
